@@ -2,14 +2,20 @@
 EXTENDS Placement
 \* -1 stands for "no explicit vx" (DW2 gives only vy and w1y)
 MCSetups == {
-  [id |-> "H-default", mode |-> "H", tab |-> [c \in 1..3 |-> <<>>], dw |-> <<1000>>],
-  [id |-> "H-W", mode |-> "H", tab |-> (1 :> <<250>> @@ 2 :> <<600>> @@ 3 :> <<>>), dw |-> <<500>>],
-  [id |-> "V-default", mode |-> "V", tab |-> [c \in 1..3 |-> <<>>], dw |-> <<-1000, -1, 880>>],
-  [id |-> "V-W2", mode |-> "V", tab |-> (1 :> <<-500, 300, 700>> @@ 2 :> <<>> @@ 3 :> <<-750, 500, 880>>), dw |-> <<-1000, -1, 880>>],
-  [id |-> "V-DW2", mode |-> "V", tab |-> (1 :> <<-800, 400, 900>> @@ 2 :> <<-800, 400, 900>> @@ 3 :> <<>>), dw |-> <<-900, -1, 800>>],
+  [id |-> "H-default", mode |-> "H", tc |-> 0, tw |-> 0, sc |-> 1, tab |-> [c \in 1..3 |-> <<>>], dw |-> <<1000>>],
+  [id |-> "H-W", mode |-> "H", tc |-> 0, tw |-> 0, sc |-> 1, tab |-> (1 :> <<250>> @@ 2 :> <<600>> @@ 3 :> <<>>), dw |-> <<500>>],
+  [id |-> "V-default", mode |-> "V", tc |-> 0, tw |-> 0, sc |-> 1, tab |-> [c \in 1..3 |-> <<>>], dw |-> <<-1000, -1, 880>>],
+  [id |-> "V-W2", mode |-> "V", tc |-> 0, tw |-> 0, sc |-> 1, tab |-> (1 :> <<-500, 300, 700>> @@ 2 :> <<>> @@ 3 :> <<-750, 500, 880>>), dw |-> <<-1000, -1, 880>>],
+  [id |-> "V-DW2", mode |-> "V", tc |-> 0, tw |-> 0, sc |-> 1, tab |-> (1 :> <<-800, 400, 900>> @@ 2 :> <<-800, 400, 900>> @@ 3 :> <<>>), dw |-> <<-900, -1, 800>>],
   \* real-valued numbers (x.5), written in HALVES: W [1 [250.5] 2 2 600.5] DW 499.5 ; W2 [1 [-500.5 300.5 700.5] 3 3 -750.5 500.5 880.5]
   \* DW2 [880.5 -999.5]
-  [id |-> "H-real", mode |-> "H", tab |-> (1 :> <<501>> @@ 2 :> <<1201>> @@ 3 :> <<>>), dw |-> <<999>>],
-  [id |-> "V-real", mode |-> "V", tab |-> (1 :> <<-1001, 601, 1401>> @@ 2 :> <<>> @@ 3 :> <<-1501, 1001, 1761>>), dw |-> <<-1999, -1, 1761>>]}
-MCShow == {1, 2, 3}
+  [id |-> "H-real", mode |-> "H", tc |-> 0, tw |-> 0, sc |-> 1, tab |-> (1 :> <<501>> @@ 2 :> <<1201>> @@ 3 :> <<>>), dw |-> <<999>>],
+  [id |-> "V-real", mode |-> "V", tc |-> 0, tw |-> 0, sc |-> 1, tab |-> (1 :> <<-1001, 601, 1401>> @@ 2 :> <<>> @@ 3 :> <<-1501, 1001, 1761>>), dw |-> <<-1999, -1, 1761>>],
+  \* text-state parameters that are usually left at their defaults: 0.5 Tc 2 Tw (fs 10: 50 / 200 thousandths), 200 Tz, 3 Ts
+  [id |-> "H-ts", mode |-> "H", tc |-> 50, tw |-> 200, sc |-> 2, tab |-> (1 :> <<250>> @@ 2 :> <<600>> @@ 3 :> <<>>), dw |-> <<500>>],
+  [id |-> "V-ts", mode |-> "V", tc |-> 50, tw |-> 200, sc |-> 1, tab |-> (1 :> <<-500, 300, 700>> @@ 2 :> <<>> @@ 3 :> <<-750, 500, 880>>), dw |-> <<-1000, -1, 880>>],
+  [id |-> "V-tz", mode |-> "V", tc |-> 50, tw |-> 200, sc |-> 2, tab |-> [c \in 1..3 |-> <<>>], dw |-> <<-1000, -1, 880>>]}
+MCShow == {1, 2, 3, 32}
+AllDev == {"VerticalTzScales"}
+NoDev == {}
 ====
